@@ -6,6 +6,7 @@
   That `_binson_to_string_cb` stores the very same text is C13 (`to_string_ctx`, `to_string_text`).
 -/
 import Binson.Lemmas.PrintLemmas
+import Binson.Lemmas.VerifyValid
 namespace Binson
 
 /-- what `binson_parser_print` can be called on: an object or an array -/
@@ -92,5 +93,20 @@ example : rootIsContainer c14Sample = true := rfl
 example : render ⟨fun _ => [0x31], fun _ => []⟩ c14Sample =
     [0x7b, 0x22, 0x41, 0x22, 0x3a, 0x7b, 0x7d, 0x2c, 0x22, 0x42, 0x22, 0x3a, 0x5b, 0x31, 0x2c, 0x7b, 0x7d,
      0x5d, 0x7d] := by decide
+
+/-- C14 end to end: for every well-formed document, what `binson_parser_print` sends to stdout (and,
+    by `to_string_protocol`, what `to_string` stores) is the reference rendering, from any allocated
+    parser object -/
+theorem print_is_render (F : Fmts) (g : Parser) (ha : Alloc g) (hmd : g.maxDepth ≤ 255) (root : Root) (v : Value)
+    (hwf : wfDoc root g.maxDepth v = true) (hsz : (encode v).length < 2 ^ 63) :
+    (print F (init g (encode v).toArray (rootNum root)).1).2.1 = true ∧
+    (print F (init g (encode v).toArray (rootNum root)).1).2.2 = render F v := by
+  obtain ⟨_, hF, hvt, hvv⟩ := verify_wellformed g ha hmd root v hwf hsz
+  unfold print
+  refine ⟨hvt, ?_⟩
+  show printFold F _ 0 _ = _
+  unfold printFold
+  rw [hF.buf, hvv]
+  exact text_eq_render F v
 
 end Binson
